@@ -508,8 +508,12 @@ int verif_poll(struct pollfd *fds, nfds_t nfds, int timeout)
       count++;
     }
   }
-  /* the call may fail as a whole (revents are then unspecified) */
+  /* the call may fail as a whole (revents are then unspecified); poll never
+     fails with EPIPE, which reproc uses for "nothing left to poll" */
   int e = maybe_fault();
+  if (e == EPIPE) {
+    e = EINTR;
+  }
   if (e) {
     fault(e);
     g.pl.poll_ret = -1;
